@@ -99,7 +99,12 @@ class SymMath(types.ModuleType):
             return engine().summary('pow', [lift(x), lift(y)])
         yf = float(y)
         if yf != int(yf):
-            if engine().decide(lift(x) < 0):
+            eng = engine()
+            if eng.linear_feasibility:
+                # carriers: the base (an interpolated time) is non-negative by an invariant the linear abstraction cannot see
+                eng.note_assumption('base of a non-integer power is non-negative (not forked under linear feasibility)')
+                eng.add_axiom(lift(x) >= 0)
+            elif eng.decide(lift(x) < 0):
                 raise ValueError('math domain error')
         return core.sym_pow(x, y)
 
